@@ -7,7 +7,6 @@ CONSTANTS
   MaxShare = 1
   MaxLend = 1
   MaxFaults = 1
-  MaxTime = 5
   Protos = {"a", "b"}
   Assocs = {"x"}
   LAddrs <- AddrsMixed
